@@ -17,6 +17,7 @@ namespace {
   // The *_fast entry points compare C-string addresses by design; names live as long as the process so that
   // address equality coincides with string equality, which is the contract those entry points assume.
   const char* intern(const char* s, long n) {
+    awsim::AllocPause pause;
     static std::set<std::string>* pool = new std::set<std::string>();
     return pool->insert(std::string(s, (size_t)n)).first->c_str();
   }
